@@ -50,9 +50,8 @@ def store_structure(icf, field):
     """chunk lengths per partition from the chunk_index files on disk"""
     parts = []
     for j in range(icf.num_partitions):
-        with open(field.partition_path(j) / "chunk_index", "rb") as f:
-            ci = pickle.load(f)
-        parts.append([int(x) for x in np.diff(ci)])
+        # through the code's own accessor: the on-disk encoding of the index is the implementation's business
+        parts.append([int(x) for x in np.diff(field.chunk_record_index(j))])
     return parts
 
 
